@@ -145,7 +145,7 @@ def gen(rng, tier, index):
     nout = len((a.elems if not reshuffled else a.elems_below) or [])
     for plan in plans:
         cases.append({'mode': 'catch', 'desc': desc, 'catch': catch, 'faults': plan,
-                      'items': items, 'down': down,
+                      'items': items, 'down': down, 'warn': rng.random() < 0.25,
                       'stop_k': rng.randrange(0, nout + 1) if rng.random() < 0.3 else None})
     return cases
 
@@ -235,7 +235,7 @@ def run(case):
         expected, terminal, dropped = per_pass[0]
         # --- system under test
         ctx = W.set_ctx(W.Ctx(faults=case['faults']))
-        ds = W.build(desc).catch(W.catch_spec_to_arg(spec))
+        ds = W.build(desc).catch(W.catch_spec_to_arg(spec), warn=bool(case.get('warn')))
         if case['down']:
             ds = ds.map(W.MapFn('dn'))
         if case['items']:
